@@ -580,11 +580,18 @@ BATCH = {
     "centre_of_gravity": lambda m, x: [m.centre_of_gravity(np.abs(x)), np.stack([m.centre_of_gravity(np.abs(x[i])) for i in range(len(x))], axis=1)],
     "brightest_pixel": lambda m, x: [m.brightest_pixel(np.abs(x).copy(), 0.5), np.stack([m.brightest_pixel(np.abs(x[i]).copy(), 0.5) for i in range(len(x))], axis=1)],
     "calc_slope_temporalps": lambda m, x: [np.stack(m.calc_slope_temporalps(x)), np.stack([np.stack(m.calc_slope_temporalps(x[i])) for i in range(len(x))], axis=1)],
+    "rft2": lambda m, x: [m.rft2(x, 0.5), np.stack([m.rft2(x[i], 0.5) for i in range(len(x))])],
+    # frames on their own pedestals (0, 1, 2 ... counts), as sub-aperture images on different sky levels are
+    "correlation_centroid": lambda m, x: [m.correlation_centroid(np.abs(x) + np.arange(len(x))[:, None, None], np.abs(x[0]), padding=2),
+                                          np.concatenate([m.correlation_centroid(np.abs(x[i]) + i, np.abs(x[0]), padding=2) for i in range(len(x))], axis=1)],
+    "correlation_centroid_t": lambda m, x: [m.correlation_centroid(np.abs(x) + np.arange(len(x))[:, None, None], np.abs(x[0]), threshold=0.2),
+                                            np.concatenate([m.correlation_centroid((np.abs(x[i]) + i)[None], np.abs(x[0]), threshold=0.2) for i in range(len(x))], axis=1)],
     "azimuthal_is_2d_only": None,
 }
 BATCH_MOD = {"ft": "fouriertransform", "ift": "fouriertransform", "ft2": "fouriertransform", "ift2": "fouriertransform", "rft": "fouriertransform",
              "binImgs": "interpolation", "quadCell": "image_processing.centroiders", "centre_of_gravity": "image_processing.centroiders",
-             "brightest_pixel": "image_processing.centroiders", "calc_slope_temporalps": "turbulence.temporal_ps"}
+             "brightest_pixel": "image_processing.centroiders", "calc_slope_temporalps": "turbulence.temporal_ps",
+             "rft2": "fouriertransform", "correlation_centroid": "image_processing.centroiders", "correlation_centroid_t": "image_processing.centroiders"}
 
 
 @st.composite
